@@ -1,3 +1,4 @@
+set_option linter.unusedSimpArgs false
 /-
   Byte strings.  Go strings are arbitrary byte sequences, so the model works on
   `List UInt8`.  Only core Lean is imported here (the driver links this file).
@@ -5,6 +6,14 @@
 namespace Pongo
 
 abbrev Bytes := List UInt8
+
+open Lean in
+/-- `b!"text"`: byte-list literal expanded at elaboration time (so that `decide`
+    and `simp` see an explicit list) -/
+macro:max "b!" s:str : term => do
+  let bytes := s.getString.toUTF8.toList
+  let elems : Array (TSyntax `term) ← bytes.toArray.mapM fun c => `(($(quote c.toNat) : UInt8))
+  `(([$elems,*] : List UInt8))
 
 /-- ASCII literal → bytes (used for readability in the executable model only;
     tables that proofs `decide` over are written as explicit byte lists). -/
